@@ -31,11 +31,13 @@ func runC15(opt *Options) int {
 			kernelFileManager(),
 			{Name: "K8.outputpackage", Pkg: "config", Harness: "VerifHarness_C15_OutputPackage", Unwind: 64, Stub: []string{"github.com/jmattheis/goverter/method.Parse"}},
 			{Name: "K8.outputfile", Pkg: "config", Harness: "VerifHarness_C15_OutputFile", Unwind: 64, Stub: []string{"github.com/jmattheis/goverter/method.Parse"}, E2E: "c15"},
+			{Name: "K8.defaultoutputfile", Pkg: "config", Harness: "VerifHarness_C15_DefaultOutputFile", Unwind: 64},
+			{Name: "K8.getpackages", Pkg: "config", Harness: "VerifHarness_C15_GetPackages", Unwind: 64, NoMapPermute: true},
 			{Name: "K8.resolvepackage", Pkg: "config", Harness: "VerifHarness_C15_ResolvePackage", Unwind: 64, E2E: "c15"},
 			kernelGenerateConverters("c15"),
 		},
-		Funcs:  []string{"generator.(*fileManager).Get", "generator.getOutputDir", "config.(*ConverterConfig).PackageID", "config.parseConverterLine (output:package, output:file arms)", "parse.File", "parse.String", "config.resolveOutputPackage", "config.resolvePackage", "pkgload.New", "pkgload.(*PackageLoader).load/GetUncheckedPkg", "goverter.GenerateConverters", "goverter.generateConvertersRaw", "goverter.writeFiles"},
-		Bounds: "two converters with arbitrary (atom) file names, output files, package paths and names; output:package / output:file values of <= 6/7 arbitrary non-blank ASCII bytes; <= 2 generated files",
+		Funcs:  []string{"generator.(*fileManager).Get", "generator.getOutputDir", "config.(*ConverterConfig).PackageID", "config.parseConverterLine (output:package, output:file arms)", "parse.File", "parse.String", "config.defaultOutputFile", "config.getPackages", "config.registerConverterLines", "config.registerMethodLines", "config.resolveOutputPackage", "config.resolvePackage", "pkgload.New", "pkgload.(*PackageLoader).load/GetUncheckedPkg", "goverter.GenerateConverters", "goverter.generateConvertersRaw", "goverter.writeFiles"},
+		Bounds: "two converters with arbitrary (atom) file names, output files, package paths and names; output:package / output:file values of <= 6/7 arbitrary non-blank ASCII bytes; declaring file names of <= 8 arbitrary bytes; <= 2 generated files",
 		Assume: k8Assume,
 	}
 	return lr.finish(lr.run(), nil)
@@ -44,14 +46,15 @@ func runC15(opt *Options) int {
 func runC16(opt *Options) int {
 	lr := &laRun{
 		Opt:  opt,
-		Pkgs: []string{"generator", "comments", "pkgload", "."},
+		Pkgs: []string{"generator", "comments", "pkgload", "cli", "."},
 		Kernels: []layera.Kernel{
 			func() layera.Kernel { k := kernelFileManager(); k.E2E = "c16"; return k }(),
 			{Name: "K8.parsedocstags", Pkg: "comments", Harness: "VerifHarness_C16_ParseDocsTags", Unwind: 16, E2E: "c16"},
 			{Name: "K8.loadertags", Pkg: "pkgload", Harness: "VerifHarness_C16_LoaderTags", Unwind: 16, E2E: "c16"},
 			kernelGenerateConverters("c16"),
+			{Name: "K8.run", Pkg: "cli", Harness: "VerifHarness_C17_Run", Unwind: 16, E2E: "c16", Stub: []string{"github.com/jmattheis/goverter/cli.Parse", "github.com/jmattheis/goverter.GenerateConverters"}},
 		},
-		Funcs:  []string{"generator.(*fileManager).Get (header emission)", "comments.ParseDocs", "pkgload.New", "pkgload.(*PackageLoader).load", "goverter.generateConvertersRaw"},
+		Funcs:  []string{"cli.Run (configuration hand-over)", "generator.(*fileManager).Get (header emission)", "comments.ParseDocs", "pkgload.New", "pkgload.(*PackageLoader).load", "goverter.generateConvertersRaw"},
 		Bounds: "any build-tags / constraint string (atoms; the header constraint <= 3 arbitrary bytes); two converters sharing or not sharing a file",
 		Assume: k8Assume,
 	}
